@@ -33,8 +33,8 @@ MOD = "mcverif.checks.c05"
 
 BOUNDS = {
     "quick": {"alpha": "quick", "maxlen": 3, "block_maxlen": 2, "deep": None},
-    # thorough: everything of length <= 3 over the extended alphabet, length 4 over the quick alphabet
-    "thorough": {"alpha": "thorough", "maxlen": 3, "block_maxlen": 2, "deep": ("quick", 4)},
+    # thorough: everything of length <= 3 over the extended alphabet, length 4 over the core alphabet
+    "thorough": {"alpha": "thorough", "maxlen": 3, "block_maxlen": 2, "deep": ("core", 4)},
 }
 
 HOSTS = {
@@ -87,12 +87,17 @@ def ARR(dt, shape, flat):
 
 
 def alphabet(name):
-    """Ordered simplest first. ``quick`` is a prefix-closed subset of ``thorough`` in content."""
+    """Ordered simplest first. core (30 values) < quick (44) < thorough (77) in content."""
     nan, inf = float("nan"), float("inf")
+    if name == "core":
+        drop = [I(-1), I(2), NP("int8", 2), NP("int8", 125), NP("int64", 2), NP("int64", INT_RANGE["int64"][0] + 2), NP("uint16", 2**16 - 3), NP("uint32", 2**32 - 3), NP("uint64", 2), F(0.0), F(inf), ["b", False], ARR("uint8", (2,), [2, 253]), ["list", [["list", [I(4), I(5)]], I(6), I(7)]]]
+        out = [x for x in alphabet("quick") if x not in drop]
+        assert len(out) == len(alphabet("quick")) - len(drop)
+        return out
     a = [None]
     a += [I(0), I(-1), I(2), I(2**40)]
     if name == "quick":
-        npints = [("int8", (2, "lo", "hi")), ("int32", (2, "lo")), ("int64", (2, "lo", "hi")), ("uint8", (2, "hi")), ("uint16", (2, "hi")), ("uint32", ("hi",)), ("uint64", (2, "hi"))]
+        npints = [("int8", (2, "lo", "hi")), ("int64", (2, "lo", "hi")), ("uint8", (2, "hi")), ("uint16", ("hi",)), ("uint32", ("hi",)), ("uint64", (2, "hi"))]
     else:
         npints = [(dt, (1, 2, "lo", "hi")) for dt in ("int8", "int16", "int32", "int64")] + [(dt, (1, 2, "hi")) for dt in ("uint8", "uint16", "uint32", "uint64")]
     for dt, vals in npints:
@@ -108,9 +113,7 @@ def alphabet(name):
         ARR("int64", (2, 2), [1, 2, 3, 4]),
         ARR("int64", (0,), []),
         ARR("float64", (2,), [1.5, nan]),
-        ARR("float64", (3,), [0.5, 2.5, -1.0]),
         ARR("str", (2,), ["a", "b"]),
-        ARR("str", (3,), ["c", "", "e"]),
         ARR("uint8", (2,), [2, 253]),
     ]
     a += [
@@ -120,8 +123,13 @@ def alphabet(name):
         ["list", [F(1.5), None]],
         ["list", [I(1), ["list", [I(2), I(3)]]]],
         ["list", [["list", [I(4), I(5)]], I(6), I(7)]],
-        ["list", [["list", [I(1), I(2)]], ["list", [I(3), I(4)]]]],
     ]
+    if name != "quick":
+        a += [
+            ARR("float64", (3,), [0.5, 2.5, -1.0]),
+            ARR("str", (3,), ["c", "", "e"]),
+            ["list", [["list", [I(1), I(2)]], ["list", [I(3), I(4)]]]],
+        ]
     a += [["dict", {"a": F(1.0)}], ["dict", {"a": F(1.0), "b": F(2.0)}], ["dict", {}]]
     a += [["flag", 3]]
     if name != "quick":
@@ -209,8 +217,10 @@ def kind_of(e):
         return "int"
     if t == "np":
         return "npuint" if e[1].startswith("u") else "npint"
-    if t in ("f", "npf"):
-        return "float"
+    if t == "f" or (t == "npf" and e[1] == "float64"):
+        return "float"  # np.float64 is a python float
+    if t == "npf":
+        return "np" + e[1]
     if t == "b":
         return "bool"
     if t == "npb":
@@ -376,6 +386,8 @@ class Ctxt:
         self.n = len(exps)
         self.has_none = any(x[0] == "none" for x in exps)
         self.all_none = all(x[0] == "none" for x in exps)
+        # the unset markers are in use when anything is unset, at the top level or inside an entry
+        self.marker = any(l[0] == "none" for x in exps for l in _leaves(x))
         shapes = [(_rect_shape(x) if x[0] != "none" else "none") for x in exps]
         real = [s for s in shapes if s != "none"]
         # ragged: the entries that are present do not all have one rectangular shape
@@ -399,7 +411,7 @@ def match_leaf(e, g, cx, path, out):
     if g[0] == "none":
         # documented unset markers: NaN for reals, "<!None!>" for strings, the NONE_MAP sentinel for
         # integers -- only in a collection that has unset entries (else no marker is in use)
-        if cx.has_none:
+        if cx.marker:
             if e[0] == "float" and e[1] == "nan":
                 cx.notes.add("nan-read-as-unset")
                 return
@@ -445,7 +457,7 @@ def match(e, g, cx, path, out, top=False):
             # "an empty entry among ragged ones comes back unset"
             cx.notes.add("empty-read-as-unset")
             return
-        if g[0] == "none" and cx.has_none and top and e[1]:
+        if g[0] == "none" and cx.marker and top and e[1]:
             # an entry whose every element equals the unset marker is indistinguishable from unset
             lv = _leaves(e)
             if lv and all(l[0] == "float" and l[1] == "nan" for l in lv):
@@ -480,8 +492,12 @@ def match(e, g, cx, path, out, top=False):
         if [k for k, _ in ee] != [k for k, _ in g[1]]:
             out.append(("dict-keys", path, e, g))
             return
+        # packSpecialData docstring: dictionaries are {str: float} matrices with NaN for absent keys,
+        # so an integer value may come back as the equal real
+        saved, cx.max_rank = cx.max_rank, max(cx.max_rank, _NUM_RANK["float"])
         for (k, a), (_, b) in zip(ee, g[1]):
             match(a, b, cx, path + [k], out)
+        cx.max_rank = saved
         return
     match_leaf(e, g, cx, path, out)
 
@@ -666,25 +682,28 @@ def classify(encs, kinds, lay, res, mism):
     exc = res["exc"] or ""
     scalar_kinds = [k for k in kinds if not k.startswith(("arr-", "list", "tuple")) and k != "none"]
     dropped = [k for k in scalar_kinds if k not in _JAGGED_SUPPORTED]
+    exp, got = mism[0][2], mism[0][3]
     if lay == "nones" and res["dtype"] == "u":
         return "c05/uint-none-sentinel"
-    if lay in ("jagged", "notstored") and dropped and (lay == "notstored" or "unmatched sizes" in exc or first == "length"):
-        return "c05/jagged-drops-unsupported-entry"
-    if lay == "jagged" and first == "read-raised" and any(k.endswith("nestedragged") for k in kinds):
+    if lay == "jagged" and first == "read-raised" and "not iterable" in exc and any(k.endswith("nestedragged") for k in kinds):
         return "c05/jagged-nested-ragged-shapes-unreadable"
-    if lay == "jagged" and first == "shape" and mism[0][2][0] in ("int", "float", "bool") and mism[0][3][0] == "seq" and len(mism[0][3][1]) == 1:
+    if lay in ("jagged", "notstored") and dropped and (lay == "notstored" or first in ("read-raised", "length")):
+        return "c05/jagged-drops-unsupported-entry"
+    if lay == "jagged" and first == "shape" and exp[0] in ("int", "float", "bool") and got[0] == "seq" and len(got[1]) == 1:
         return "c05/jagged-scalar-read-as-1-element-array"
     if lay == "special" and first == "read-raised" and any(k.endswith("innernone") or k == "arr-obj" for k in kinds):
         return "c05/inner-none-array-unreadable"
     if lay == "dict" and any(k != "dict" for k in kinds):
         return "c05/dict-layout-absorbs-non-dict-entry"
+    if lay == "nones" and first in ("kind", "value") and exp[0] == "float" and got[0] == "int":
+        return "c05/none-sentinel-casts-to-first-entry-type"
     if first == "kind-string":
         return "c05/mixed-number-string-stringified"
-    if first == "value-promoted":
-        return "c05/mixed-int-float-promotion-lossy"
-    if first == "kind" and lay == "plain" and res["dtype"] == "f" and mism[0][2][0] in ("int", "bool"):
-        return "c05/mixed-int-uint64-read-as-float"
-    return "c05/unclassified/%s/%s/%s" % (lay, first, "+".join(kinds))
+    if res["dtype"] == "f" and (first == "value-promoted" or (first == "kind" and exp[0] in ("int", "bool") and got[0] == "float")):
+        return "c05/mixed-int-promoted-to-float"
+    # anything else: layout x kind of difference x (kind of the value that differs | exception class)
+    what = exc.split(":")[0] if first == "read-raised" else exp[0] if isinstance(exp, list) and exp else "-"
+    return "c05/unclassified/%s/%s/%s" % (lay, first, what)
 
 
 # ---------------------------------------------------------------------------------------------
@@ -699,6 +718,7 @@ def _chunk(item):
     viols = {}
     obs = set()
     nontrivial = 0
+    quiet = set(item.get("quiet_keys") or ())  # classes already witnessed by shorter lists: count only
 
     def cnt(k, n=1):
         counters[k] = counters.get(k, 0) + n
@@ -724,10 +744,12 @@ def _chunk(item):
         if vs:
             cnt("violating_lists")
             for v in vs:
+                cnt("viol_" + v["key"])
+                if v["key"] in quiet:
+                    continue
                 viols.setdefault(v["key"], [])
                 if len(viols[v["key"]]) < 2:
                     viols[v["key"]].append(v)
-                cnt("viol_" + v["key"])
         elif info["outcome"] == "stored":
             cnt("stored_equal")
         if item.get("hash_obs"):
@@ -761,7 +783,7 @@ def _insertions(base, extras):
 
 
 def flag_orders(k, tier):
-    """(writers, readers) as lists of name tuples."""
+    """(writers, readers) as lists of name tuples; every (writer, reader) pair is evaluated."""
     base = tuple("F%d" % i for i in range(k))
     ex = ("X0", "X1")
     if k <= 3 or (k == 4 and tier != "quick"):
@@ -778,15 +800,18 @@ def flag_orders(k, tier):
             p[i], p[j] = p[j], p[i]
             trans.append(tuple(p))
     rbase = [ident, rev] + rots + trans
+    adjacent = [t for t in trans if sum(1 for a, b in zip(t, base) if a != b) == 2 and abs([i for i, (a, b) in enumerate(zip(t, base)) if a != b][0] - [i for i, (a, b) in enumerate(zip(t, base)) if a != b][1]) in (1, k - 1)]
+    readers = set(rbase)
+    for b in [ident, rev] + rots + adjacent:
+        readers.update(_insertions(b, ex[:1]))  # one added field, every position
+    for b in (ident, rev, rots[0])[: 3 if k == 8 else 2]:
+        readers.update(_insertions(b, ex))  # two added fields, every pair of positions
     if tier != "quick" and k == 8:
-        rbase = list(itertools.permutations(base))
-        readers = list(rbase) + [o for b in (ident, rev, rots[0], trans[0]) for o in _insertions(b, ex)[1:]]
-    else:
-        readers = sorted(set(o for b in rbase for o in _insertions(b, ex)), key=lambda o: (len(o), o))
-    wb = [ident, rev, rots[0]]
-    writers = []
-    for b in wb:
-        writers += [b, ("X0",) + b, b + ("X0",), ("X0",) + b + ("X1",), b[:1] + ("X1", "X0") + b[1:]]
+        readers.update(itertools.permutations(base))
+    readers = sorted(readers, key=lambda o: (len(o), o))
+    writers = [ident, rev, ("X0",) + ident, ident + ("X0",)][: 4 if k == 8 else 3]
+    if tier != "quick":
+        writers += [rots[0], ("X0",) + ident + ("X1",), ident[:1] + ("X1", "X0") + ident[1:]]
     return writers, readers
 
 
@@ -903,6 +928,7 @@ FULLDB_LISTS = [
 
 def eval_fulldb(case):
     import os
+    import shutil
 
     from armi.bookkeeping.db.database import Database
     from armi.reactor.flags import Flags
@@ -922,33 +948,46 @@ def eval_fulldb(case):
     flags_before = [sorted(n for n, v in Flags.fields().items() if int(b.p.flags) & v) for b in blocks]
     names_before = [b.getName() for b in blocks]
     d = env.fresh_dir("c05db")
-    path = os.path.join(d, "c05.h5")
     c = dict(case)
     c["kind"] = "fulldb"
-    db = Database(path, "w")
-    db.open()
+    cwd = os.getcwd()
+    os.chdir(d)  # the database is created in the fast path (the process scratch) and moved here on close
     try:
+        db = Database("c05.h5", "w")
+        db.open()
         try:
-            db.writeInputsToDB(cs, bpString=build.render(build.normalize(spec)))
-            db.writeToDB(r)
-        except Exception as e:
-            return [], {"outcome": "refused", "exc": type(e).__name__}
-    finally:
-        db.close(True)
-    db = Database(path, "r")
-    db.open()
-    try:
+            try:
+                db.writeInputsToDB(cs, bpString=build.render(build.normalize(spec)))
+                db.writeToDB(r)
+            except Exception as e:
+                return [], {"outcome": "refused", "exc": type(e).__name__}
+        finally:
+            db.close(True)
+        # what was actually stored (layout attributes, dtype) -- only used to name the violation class
+        import h5py
+
+        res = {"attrs": ["<not stored>"], "dtype": None, "exc": None}
+        with h5py.File("c05.h5", "r") as h5:
+            grp = h5["c00n00/HexBlock"]
+            if pname in grp:
+                res["attrs"] = sorted(grp[pname].attrs.keys())
+                res["dtype"] = grp[pname].dtype.kind
+        lay = layout_of(res)
+        kinds = sorted(set(kind_of(e) for e in encs))
+        db = Database("c05.h5", "r")
+        db.open()
         try:
-            r2 = db.load(0, 0, cs=cs, bp=build.blueprints(spec))
-        except Exception as e:
-            key = "c05/fulldb-load-raises/" + name
-            if name == "uint-none":
-                key = "c05/uint-none-sentinel"
-            if name == "ragged-npscalar":
-                key = "c05/jagged-drops-unsupported-entry"
-            return [core.viol(key, "reactor with block parameter %s = %s written by writeToDB; Database.load raised %s: %s" % (pname, show(encs), type(e).__name__, str(e)[:200].replace("\n", " ")), c)], {"outcome": "read-raised"}
+            try:
+                r2 = db.load(0, 0, cs=cs, bp=build.blueprints(spec))
+            except Exception as e:
+                res["exc"] = "%s: %s" % (type(e).__name__, str(e)[:160].replace("\n", " "))
+                key = classify(encs, kinds, lay, res, [("read-raised", [], res["exc"], None)])
+                return [core.viol(key, "reactor with block parameter %s = %s written by writeToDB (layout %s); Database.load raised %s" % (pname, show(encs), lay, res["exc"]), c)], {"outcome": "read-raised"}
+        finally:
+            db.close()
     finally:
-        db.close()
+        os.chdir(cwd)
+        shutil.rmtree(d, ignore_errors=True)
     blocks2 = r2.core.getBlocks()
     vs = []
     got = [b.p[pname] for b in blocks2]
@@ -956,11 +995,8 @@ def eval_fulldb(case):
     if [b.getName() for b in blocks2] != names_before:
         raise RuntimeError("block order changed by the round trip: %s vs %s" % (names_before, [b.getName() for b in blocks2]))
     if mism:
-        kinds = sorted(set(kind_of(e) for e in encs))
-        key = "c05/fulldb-differs/" + name
-        if name == "uint-none":
-            key = "c05/uint-none-sentinel"
-        vs.append(core.viol(key, "reactor with block parameter %s = %s: after writeToDB/load it reads %s (%s at %s)" % (pname, show(encs), _short([got_of(v) for v in got]), mism[0][0], mism[0][1]), c))
+        key = classify(encs, kinds, lay, res, mism)
+        vs.append(core.viol(key, "reactor with block parameter %s = %s (stored with layout %s): after writeToDB/load it reads %s (%s at %s)" % (pname, show(encs), lay, _short([got_of(v) for v in got]), mism[0][0], mism[0][1]), c))
     flags_after = [sorted(n for n, v in Flags.fields().items() if int(b.p.flags) & v) for b in blocks2]
     if flags_after != flags_before:
         vs.append(core.viol("c05/fulldb-flags-differ", "block flags %s read back as %s" % (flags_before, flags_after), c))
@@ -1014,9 +1050,13 @@ def run(ctx):
         for L in lengths:
             for pre in itertools.product(range(A), repeat=L - 1):
                 items.append({"host": host, "alpha": alpha, "prefix": list(pre), "hash_obs": hash_obs})
+        if not hash_obs:
+            quiet = sorted(set(v["key"] for v in viols))
+            for it in items:
+                it["quiet_keys"] = quiet
         items = ctx.order(items)
         ctx.log("part A: host %s, alphabet %s (%d values), lists of length %s: %d chunks" % (host, alpha, A, list(lengths), len(items)))
-        merge(core.pmap(MOD, "_chunk", items, chunksize=4))
+        merge(core.pmap(MOD, "_chunk", items, chunksize=4 if len(items) > 400 else 1))
     evaluations += totals.get("lists", 0)
     for k, n in sorted(totals.items()):
         ctx.count("A_" + k, n)
@@ -1026,16 +1066,21 @@ def run(ctx):
     fl_eval = fl_pairs = 0
     for k in (3, 8, 9) if ctx.quick else (3, 4, 8, 9):
         writers, readers = flag_orders(k, ctx.tier)
-        exhaustive_subsets = not (k == 8 and not ctx.quick)
         items = []
         for w in writers:
-            for i in range(0, len(readers), 200):
-                items.append({"writer": list(w), "readers": [list(r) for r in readers[i : i + 200]], "subsets": "all" if exhaustive_subsets else "probe"})
-        if k == 3:
-            base = [o for o in writers if len(o) <= 4]
-            items += [{"writer": list(w), "readers": [list(r) for r in base], "h5": True} for w in base]
-        else:
-            items += [{"writer": list(w), "readers": [list(r) for r in readers[:: max(1, len(readers) // 25)]], "h5": True} for w in writers[:5]]
+            for i in range(0, len(readers), 150):
+                rs = readers[i : i + 150]
+                if k == 8 and not ctx.quick and w != writers[0]:
+                    rs = [r for r in rs if len(r) > k or r in readers[:40]]
+                # all 8! reader permutations (thorough) are probed with singletons, co-singletons, empty, full and
+                # alternating subsets; everything else with every subset of the writer's fields
+                items.append({"writer": list(w), "readers": [list(r) for r in rs], "subsets": "probe" if (k == 8 and not ctx.quick and w == writers[0]) else "all"})
+        if k == 8 and not ctx.quick:
+            short = [r for r in readers if len(r) > k] + readers[:40]
+            items.append({"writer": list(writers[0]), "readers": [list(r) for r in short], "subsets": "all"})
+        small = [o for o in writers if len(o) <= k + 1]
+        h5r = small if k <= 4 else readers[:: max(1, len(readers) // 40)]
+        items += [{"writer": list(w), "readers": [list(r) for r in h5r], "h5": True} for w in small[:40]]
         res = core.pmap(MOD, "_flag_chunk", ctx.order(items), chunksize=1)
         n = sum(r["n"] for r in res)
         p = sum(r["pairs"] for r in res)
@@ -1045,6 +1090,7 @@ def run(ctx):
         ctx.count("B_subset_evaluations_k%d" % k, n)
         for r in res:
             viols.extend(r["viols"])
+        ctx.log("part B: %d-field classes: %d writers x %d readers, %d pairs, %d subset evaluations" % (k, len(writers), len(readers), p, n))
     evaluations += fl_eval
 
     # ---- part C
@@ -1061,8 +1107,9 @@ def run(ctx):
     ctx.add_violations(viols)
     al = alphabet(B["alpha"])
     ctx.samples = [
-        {"kind": "list", "host": "assembly", "vals": [al[6], None, al[7]]},
-        {"kind": "list", "host": "assembly", "vals": [F(1.5), None]},
+        {"kind": "list", "host": "assembly", "vals": [F(1.5), None, F(float("nan"))]},
+        {"kind": "list", "host": "assembly", "vals": [ARR("int64", (2,), [1, 2]), ["list", []], ARR("int64", (3,), [3, 4, 5])]},
+        {"kind": "list", "host": "block", "vals": [["dict", {"a": F(1.0)}], ["dict", {}]]},
         {"kind": "flags", "writer": ["F0", "F1", "F2"], "reader": ["F2", "X0", "F0", "F1"], "h5": True, "subsets": "all"},
         cases[9],
     ]
@@ -1077,7 +1124,7 @@ def run(ctx):
         distinct_observations=len(obs),
     )
     ctx.assumptions += [
-        "value lists of length <= %d over a typed alphabet of %d values (%s); %s" % (B["maxlen"], len(al), B["alpha"], ("length %d over the %d-value quick alphabet" % (B["deep"][1], len(alphabet(B["deep"][0])))) if B["deep"] else "longer lists not visited"),
+        "value lists of length <= %d over a typed alphabet of %d values (%s); %s" % (B["maxlen"], len(al), B["alpha"], ("length %d over the %d-value core alphabet" % (B["deep"][1], len(alphabet(B["deep"][0])))) if B["deep"] else "longer lists not visited"),
         "lists are carried by HexAssembly.p.orientation (class-level Parameter.assigned masks set so that only this parameter is written; restored after each execution) and, for length <= %d, by HexBlock.p.axMesh with all constructor-assigned parameters written too" % B["block_maxlen"],
         "reference normaliser N: container type is not observed; an empty entry in a ragged/unset-bearing collection may read as unset; in a collection with unset entries NaN, '<!None!>' and the documented integer sentinel may read as unset; an all-unset collection reads as the parameter default; an entry that is itself ragged may come back flattened (JaggedArray docstring); entries of a narrower numeric kind may be promoted bool->int->float to a kind present in the collection if the value is preserved exactly",
         "flags: private Flag subclasses with auto() fields only (as armi.reactor.flags.Flags); 3-field (thorough: 4-field) classes exhaustively over permutations x 0-2 inserted fields on both sides, 8/9-field classes over identity/reversal/rotations/transpositions x insertions; explicit non-contiguous bit values not covered",
